@@ -7,6 +7,10 @@ TECH = "bounded symbolic execution of the real code's go/ssa form, every branch/
 BASE = "cd /repo && go test -vet=off -count=1 -timeout 25m ./..."
 
 CLAIMED = {
+ "C04": dict(
+   text="All histories of k=3/5 actions {ScheduleOnce, ScheduleRepeating with symbolic delays in [-5, 2^40] ns, Cancel, Close, cancel+re-arm, start a pipe read, poll cycle} over two sonic.Timers and a pipe on one IO, with 1/2 further nested actions taken from inside timer or pipe callbacks of the same poll batch (batches of <= 2/3 entries in any order), symbolic clock advances. Asserted at every callback entry: the schedule it belongs to is still the active one (never after Cancel/Close, at most once for ScheduleOnce), now >= schedule time + delay (never early), repeats >= one interval apart; scheduling while scheduled or on a closed timer fails and leaves the existing schedule intact; Scheduled() <=> a callback is due. Second harness: a due timer whose deadline has passed and whose entry is delivered runs exactly once in that cycle.",
+   note="Scheduling a timer from inside its own callback is outside (whether a repeating timer holds a schedule during its callback is undefined); model clock is monotonic; timerfd semantics per vsys/vkernel (settime resets the expiration count, entries of a batch are fixed when epoll_wait returns).",
+   ref="DESIGN.md §4 C04"),
  "C14": dict(
    text="For each copy of the dispatch-limit logic reachable without the multicast peer (file read/write on stream socket, pipe ends and regular file; listener accept; packet conn read/write) one step from an ARBITRARY depth d in [0, MaxCallbackDispatch] (symbolic), which by induction covers chains of any length and any mix: inside every completion callback Dispatched equals the number of callbacks on the stack and is <= the limit, nesting <= limit+1; a callback that starts another operation on a different object nests inline below the limit and is deferred at it; at d = limit the operation is not run synchronously, is armed in the kernel, and when the poller dispatches it completes with the inline result; afterwards the accounting is back to its starting value.",
    note="multicast.UDPPeer (fifth copy) is not covered (its package is not substituted onto the kernel model yet). Known finding KF-C14-1 (regular files cannot take the deferred path) is reported as KNOWN-FINDING.",
